@@ -1,4 +1,4 @@
-CONSTANT Cfg <- Cfg_seq0_cancel_unfixed
+CONSTANT CfgSet <- S_seq0_cancel_unfixed
 INIT MCInit
 NEXT Next
 CHECK_DEADLOCK FALSE
